@@ -479,9 +479,10 @@ def run_kw_case(inp, ctx):
         funcs = _user_functions()
         _register(inp['style'], 'TAG', funcs['TAG'])
         args, kw, want = TAG_CALLS[inp['i']]
-        got = lib.observe(lib.FUNCTIONS['TAG'],
-                          *[fcall.mat(a) for a in args],
-                          **{k: fcall.mat(v) for k, v in kw.items()})
+        fn = lib.FUNCTIONS.get('TAG')
+        got = 'unregistered:TAG' if fn is None else lib.observe(
+            fn, *[fcall.mat(a) for a in args],
+            **{k: fcall.mat(v) for k, v in kw.items()})
         ctx.check(inp['key'], got, want, inp['tags'], dict(inp))
     finally:
         _unregister_all()
